@@ -189,6 +189,53 @@ Theorem C24_cache_transparent :
 Proof. intros. eapply run_transparent; eauto. Qed.
 Print Assumptions C24_cache_transparent.
 
+(** The model of trust.Verifier WITH its cache ([notifyTRC] ids, [getChains]
+    lists under the key ISD-AS / subject key id / validity, as since 7016e47):
+    for every engine, every reachable cache state and every sequence of segments
+    verified on the one verifier, the verdicts are those of the uncached
+    VerifySegment, one by one. *)
+Theorem C24_cached_verifier_equals_uncached :
+  forall (PK : Type) (sig_valid : PK -> bytes -> bytes -> bool) (hash : N -> bytes -> bytes)
+         (kind : PK -> N) (notify : N -> N -> N -> bool)
+         (certs_for : N -> bytes -> validity -> option (list PK)) (ss : list segment),
+    fst (verify_segments_cached PK sig_valid hash kind notify certs_for vc_empty ss)
+    = map (verify_segment PK sig_valid hash kind notify certs_for) ss.
+Proof. intros. apply verify_segments_cached_ok. apply vc_empty_ok. Qed.
+Print Assumptions C24_cached_verifier_equals_uncached.
+
+(** the same from any cache state whose entries are engine answers, and that
+    property of the state is preserved by a verification *)
+Theorem C24_cached_step_invariant :
+  forall (PK : Type) (sig_valid : PK -> bytes -> bytes -> bool) (hash : N -> bytes -> bytes)
+         (kind : PK -> N) (notify : N -> N -> N -> bool)
+         (certs_for : N -> bytes -> validity -> option (list PK)) c s,
+    vcache_ok PK notify certs_for c ->
+    fst (verify_segment_cached PK sig_valid hash kind notify certs_for c s)
+    = verify_segment PK sig_valid hash kind notify certs_for s /\
+    vcache_ok PK notify certs_for (snd (verify_segment_cached PK sig_valid hash kind notify certs_for c s)).
+Proof. intros. now apply verify_segment_cached_ok. Qed.
+Print Assumptions C24_cached_step_invariant.
+
+(** what [check] evaluates for a sequence: with the cache flag of the case the
+    model runs through the cache model; the verdicts do not depend on the flag,
+    and the oracle holds on them *)
+Theorem C24_seq_oracle_holds_on_model :
+  forall pki trcs cache steps,
+    map st_impl steps = model_verdicts pki trcs cache steps ->
+    model_verdicts pki trcs cache steps = model_verdicts pki trcs false steps /\
+    forallb (step_oracle pki trcs) steps = true.
+Proof.
+  intros pki trcs cache steps E.
+  assert (Ei : model_verdicts pki trcs cache steps = model_verdicts pki trcs false steps).
+  { destruct cache; [apply model_verdicts_cache_irrelevant|reflexivity]. }
+  split; [exact Ei|]. rewrite Ei in E. unfold model_verdicts in E. clear Ei.
+  induction steps as [|st t IH]; [reflexivity|].
+  cbn [map] in E. inversion E as [[E1 E2]]. cbn [forallb]. rewrite (IH E2), andb_true_r.
+  destruct st as [seg fp tbl impl]. cbn [st_impl st_tbl st_seg] in *. subst impl.
+  apply step_oracle_model.
+Qed.
+Print Assumptions C24_seq_oracle_holds_on_model.
+
 (** the defect that was fixed: with the key (ISD-AS, subject key id) the second
     query (other validity) is answered with the chains of the first *)
 Theorem C24_cache_key_needs_validity :
